@@ -108,3 +108,6 @@ func vClockBetween(name string, lo, hi int64)
 func vDebugErr(label string, err error)
 
 func vIDString(name string) string
+
+func vEmptyStore() dsig.X509CertificateStore
+func vValidateCtxSince(k int, sp *SAMLServiceProvider) bool
